@@ -28,5 +28,4 @@ for p in "${PS[@]}"; do
   echo "MUTANT $CH check $p: exit=$rc violations=$v $(echo "$out" | grep -m1 'violation:' | cut -c1-220)"
 done
 # drop replays the mutant run produced
-git -C $V clean -fdq replays 2>/dev/null
 rm -f $V/replays/*/found-*.json
